@@ -413,7 +413,7 @@ struct Intent {
     std::set<std::pair<std::string, std::string>> cookies;
     std::string body;
     // response side
-    int code; std::vector<std::pair<std::string, std::string>> rheaders; std::set<std::pair<std::string, std::string>> rcookies; bool rcookieAttrs = false; long rcookieMaxAge = -1; bool rmoveStream = false;
+    int code; std::vector<std::pair<std::string, std::string>> rheaders; std::set<std::pair<std::string, std::string>> rcookies; bool rcookieAttrs = false; long rcookieMaxAge = -1; long long rcookieExpires = -1; bool rmoveStream = false;
     int rkind; std::string rbody; std::vector<size_t> rchunks;
 };
 static std::mutex g_im;
@@ -438,7 +438,7 @@ struct EchoHandler : public Http::Handler {
             else if (h.first == "Access-Control-Allow-Origin") response.headers().add<AccessControlAllowOrigin>(h.second);
             else if (h.first == "Content-Type") response.headers().add<ContentType>(Http::Mime::MediaType::fromString(h.second));
         }
-        for (auto& c : in->rcookies) { Http::Cookie ck(c.first, c.second); if (in->rcookieAttrs) { ck.path = std::string("/p"); ck.secure = true; } if (in->rcookieMaxAge >= 0) ck.maxAge = (int)in->rcookieMaxAge; response.cookies().add(ck); }
+        for (auto& c : in->rcookies) { Http::Cookie ck(c.first, c.second); if (in->rcookieAttrs) { ck.path = std::string("/p"); ck.secure = true; } if (in->rcookieMaxAge >= 0) ck.maxAge = (int)in->rcookieMaxAge; if (in->rcookieExpires >= 0) ck.expires = Http::FullDate(std::chrono::system_clock::time_point(std::chrono::seconds(in->rcookieExpires))); response.cookies().add(ck); }
         if (in->rkind == 0) response.send((Http::Code)in->code, in->rbody);
         else if (in->rmoveStream) {   // the stream object changes hands (move construction, then move assignment) before anything has been flushed
             auto st0 = response.stream((Http::Code)in->code); Http::ResponseStream st1(std::move(st0)); auto holder = std::make_unique<Http::ResponseStream>(std::move(st1)); Http::ResponseStream& st = *holder;
@@ -482,6 +482,8 @@ static void run_c02(long cases) {
         int rc = r.range(0, 3); for (int k = 0; k < rc; k++) in.rcookies.insert({mg::tok(r, 1, 6, mg::CKNAME), mg::tok(r, 1, 10, mg::CKVAL)});
         in.rcookieAttrs = r.chance(1, 3);
         if (r.chance(1, 4)) { static const long MA[] = {0, 1, 3600, 2147483639L, 2147483640L, 2147483646L, 2147483647L}; in.rcookieMaxAge = r.chance(1, 4) ? (long)r.below(2147483648ull) : r.pick(MA); }
+        // an expiry date on the response cookies: any second from 1970 to 2200 (the years in which a two-digit or week-based year would differ included)
+        if (r.chance(1, 3)) { static const long long EX[] = {0, 946684800LL, 2147483647LL, 3124223999LL, 3124224000LL, 4102444800LL, 4133980799LL, 7258118400LL, 1609459200LL, 1546214400LL}; in.rcookieExpires = r.chance(1, 2) ? r.pick(EX) : (long long)r.below(7258118400ull); }
         // now and then one header value (or a response cookie) is large, so that the head of the message crosses the 4096-byte reads of both sides
         if (r.chance(1, 6)) { std::string big = mg::tok(r, 3000, 7000, "abcdefghijklmnopqrstuvwxyzABCDEFGHIJKLMNOPQRSTUVWXYZ0123456789-._~"); bool placed = false; for (auto& h : in.headers) if (!placed && (h.first == "Authorization" || h.first == "Location" || h.first == "Server")) { h.second = h.first == "Authorization" ? "Bearer " + big : big; placed = true; } if (!placed && !used.count("Authorization")) in.headers.insert(in.headers.begin() + (long)r.below(in.headers.size() + 1), {"Authorization", "Bearer " + big}); }
         if (r.chance(1, 6)) { std::string big = mg::tok(r, 3000, 7000, "abcdefghijklmnopqrstuvwxyzABCDEFGHIJKLMNOPQRSTUVWXYZ0123456789"); if (r.chance(1, 2)) in.rcookies.insert({"big", big}); else { bool placed = false; for (auto& h : in.rheaders) if (!placed && h.first != "Content-Type") { h.second = big; placed = true; } if (!placed) in.rheaders.insert(in.rheaders.begin(), {"Server", big}); } }
@@ -528,7 +530,7 @@ static void run_c02(long cases) {
         if (!in.body.empty()) rb.body(in.body);
         std::atomic<int> done{0}; int gotCode = 0; std::string gotBody; std::map<std::string, std::string> gotTyped; std::set<std::string> gotCookies; bool rejected = false;
         rb.send().then([&](Http::Response resp) { gotCode = (int)resp.code(); gotBody = resp.body(); for (auto& h : resp.headers().list()) { std::ostringstream os; h->write(os); gotTyped[h->name()] = os.str(); }
-                           for (auto c = resp.cookies().begin(); c != resp.cookies().end(); ++c) gotCookies.insert(c->name + "=" + c->value + "|path=" + (c->path ? *c->path : std::string("-")) + "|secure=" + (c->secure ? "1" : "0") + "|maxage=" + (c->maxAge ? std::to_string(*c->maxAge) : std::string("-")) + "|ext=" + std::to_string(c->ext.size())); done = 1; },
+                           for (auto c = resp.cookies().begin(); c != resp.cookies().end(); ++c) gotCookies.insert(c->name + "=" + c->value + "|path=" + (c->path ? *c->path : std::string("-")) + "|secure=" + (c->secure ? "1" : "0") + "|maxage=" + (c->maxAge ? std::to_string(*c->maxAge) : std::string("-")) + "|expires=" + (c->expires ? std::to_string((long long)std::chrono::duration_cast<std::chrono::seconds>(c->expires->date().time_since_epoch()).count()) : std::string("-")) + "|ext=" + std::to_string(c->ext.size())); done = 1; },
                        [&](std::exception_ptr) { rejected = true; done = 1; });
         bool fin = wait_for([&] { return done.load() == 1; }, 10.0 * lv::load_factor());
         g_evals++;
@@ -550,7 +552,7 @@ static void run_c02(long cases) {
             else if (gotBody != in.rbody) { key = std::string("c02:response:body:") + (in.rkind ? "stream" : "fixed"); detail = std::to_string(gotBody.size()) + " bytes received, " + std::to_string(in.rbody.size()) + " written"; }
             else {
                 for (auto& h : in.rheaders) { auto it = gotTyped.find(h.first); if (it == gotTyped.end()) { key = "c02:response:header-missing:" + h.first; break; } if (it->second != h.second) { key = "c02:response:header-value:" + h.first; detail = it->second; break; } }
-                std::set<std::string> want; for (auto& c : in.rcookies) want.insert(c.first + "=" + c.second + "|path=" + (in.rcookieAttrs ? "/p" : "-") + "|secure=" + (in.rcookieAttrs ? "1" : "0") + "|maxage=" + (in.rcookieMaxAge >= 0 ? std::to_string(in.rcookieMaxAge) : std::string("-")) + "|ext=0");
+                std::set<std::string> want; for (auto& c : in.rcookies) want.insert(c.first + "=" + c.second + "|path=" + (in.rcookieAttrs ? "/p" : "-") + "|secure=" + (in.rcookieAttrs ? "1" : "0") + "|maxage=" + (in.rcookieMaxAge >= 0 ? std::to_string(in.rcookieMaxAge) : std::string("-")) + "|expires=" + (in.rcookieExpires >= 0 ? std::to_string(in.rcookieExpires) : std::string("-")) + "|ext=0");
                 if (key.empty() && gotCookies != want) { key = "c02:response:cookies"; detail = std::to_string(gotCookies.size()) + " received, " + std::to_string(want.size()) + " set"; }
             }
         }
